@@ -189,7 +189,7 @@ async def _scenario(rng, d):
     if d['handler_adapter']:
         class Delegate(Base):
             async def on_setup(self, data_encoding, metadata_encoding, payload):
-                delegate_calls.append(('setup', pkey(payload)))
+                delegate_calls.append(('setup', pkey(payload), bytes(data_encoding), bytes(metadata_encoding)))
 
             async def request_stream(self, payload):
                 delegate_calls.append(('stream', pkey(payload)))
@@ -220,6 +220,19 @@ async def _scenario(rng, d):
                 down['emitted'].append(pkey(p))
                 return R.of(p)
 
+            if d.get('rr_future') and version == 'rx4':
+                # the v4 adapter also accepts a Future of the observable
+                _plain_rr = request_response
+
+                async def request_response(self, payload, _plain_rr=_plain_rr):
+                    f = asyncio.get_event_loop().create_future()
+                    o = await _plain_rr(self, payload)
+                    if d['rr_future'] == 'late':
+                        asyncio.get_event_loop().call_later(0.01, f.set_result, o)
+                    else:
+                        f.set_result(o)
+                    return f
+
             async def request_fire_and_forget(self, payload):
                 delegate_calls.append(('fnf', pkey(payload)))
 
@@ -238,7 +251,8 @@ async def _scenario(rng, d):
         yield link.transports['c']
 
     core = RSocketClient(provider(), keep_alive_period=timedelta(seconds=1e6),
-                         max_lifetime_period=timedelta(seconds=2e6), setup_payload=setup_payload)
+                         max_lifetime_period=timedelta(seconds=2e6), setup_payload=setup_payload,
+                         data_encoding=b'application/x-rv-data', metadata_encoding=b'message/x-rv-metadata')
     instrument_endpoint_queue(world, core, 'c')
     instrument_endpoint_queue(world, server, 's')
     await core.connect()
@@ -350,6 +364,7 @@ def gen_scenario(rng, single=False):
     if single:
         d['dispose_after'] = None
         d['limit'] = MAXN
+        d['rr_future'] = rng.choice([None, 'done', 'late']) if model == 'rr' else None
     if 'hot' in (d['down_kind'], d['up_kind']) and d['pacing'] == 0.0:
         d['pacing'] = 0.001      # a hot source must not fire before anybody can have subscribed
     if not d['handler_adapter']:
@@ -396,6 +411,8 @@ def judge(d, res):
         setups = [c for c in calls if c[0] == 'setup']
         if len(setups) != 1 or setups[0][1] != (b'setup-data', b'setup-md'):
             bad('setup-not-delivered-to-delegate-exactly-once', calls=[c[0] for c in calls])
+        elif setups[0][2:] != (b'application/x-rv-data', b'message/x-rv-metadata'):
+            bad('setup-encodings-differ-at-delegate', data_encoding=repr(setups[0][2]), metadata_encoding=repr(setups[0][3]))
         want = res['req'] if model != 'push' else (b'', res['req'][0])
         mine = [c for c in calls if c[0] == model]
         if len(mine) != 1 or mine[0][1] != want:
